@@ -33,3 +33,32 @@ pub mod props {
     pub mod holder;
     pub mod proto;
 }
+
+/// Coverage-guided entry (used by /verif/harness/fuzz): the property's fuzzer by id.
+#[cfg(not(vls_verif))]
+pub fn fuzzer_for(id: &str) -> Option<Box<dyn engine::FuzzDyn>> {
+    use engine::Fuzzer;
+    use props::*;
+    Some(match id {
+        "C01" => Box::new(Fuzzer::new(holder::C01)),
+        "C02" => Box::new(Fuzzer::new(holder::C02)),
+        "C03" => Box::new(Fuzzer::new(c03::C03)),
+        "C04" => Box::new(Fuzzer::new(c04::C04)),
+        "C05" => Box::new(Fuzzer::new(c05::C05)),
+        "C06" => Box::new(Fuzzer::new(c06::C06)),
+        "C07" => Box::new(Fuzzer::new(c07::C07)),
+        "C08" => Box::new(Fuzzer::new(c08::C08)),
+        "C09" => Box::new(Fuzzer::new(c09::C09)),
+        "C10" => Box::new(Fuzzer::new(c10::C10)),
+        "C11" => Box::new(Fuzzer::new(c11::C11)),
+        "C12" => Box::new(Fuzzer::new(c12::C12)),
+        "C13" => Box::new(Fuzzer::new(c13::C13)),
+        "C14" => Box::new(Fuzzer::new(c14::C14)),
+        "C15" => Box::new(Fuzzer::new(c15::C15)),
+        "C16" => Box::new(Fuzzer::new(c16::C16)),
+        "C17" => Box::new(Fuzzer::new(c17::C17)),
+        "C18" => Box::new(Fuzzer::new(c18::C18)),
+        "C19" => Box::new(Fuzzer::new(c19::C19)),
+        _ => return None,
+    })
+}
